@@ -72,7 +72,9 @@ META = {
                     "h.smin ≤ h.smax and 0 < h.smin for the bound theorems (constructor does not assert it; generated only rarely otherwise "
                     "and then only the transition, not the bound, is checked)"],
     "partial": ["IEEE: comparisons `last < loss`, `quality > high` are modelled over ℝ; a quality within rounding distance of a "
-                "threshold is accepted on either side (measured, not proved); `x/±0` sign is not modelled",
+                "threshold is accepted on either side (measured, not proved); the sign of a zero denominator is an input of the model (`verdictZ`); "
+                "a NaN/inf produced by the code from finite in-range inputs is a failure, a non-finite value coming from the user model, autograd, "
+                "the solver or dtype overflow ends the scenario (counted as abandoned.<cause>)",
                 "restore is proved exactly (retraction contract); 'up to round-off' on floats is measured by the restore oracle"],
 }
 
@@ -104,6 +106,8 @@ def frac(x) -> Fraction:
 
 
 def rel_close(a: float, b: Fraction, tol: float) -> bool:
+    if not math.isfinite(a):
+        return False                     # a NaN/inf of the implementation agrees with no model value
     a = Fraction(a)
     if a == b:
         return True
@@ -134,10 +138,12 @@ def far(a, b, tol, dtype) -> bool:
     """|a - b| > tol, where a float32/float64 `inf` agrees with any true value beyond that dtype's range"""
     xmax = max(getattr(a, "xmax", 0.0), getattr(b, "xmax", 0.0))   # largest ‖r‖² (an intermediate of the loss)
     a, b = float(a), float(b)
+    if math.isnan(a) or math.isnan(b):
+        return True                      # NaN agrees with nothing (every `x > tol` test is False on NaN)
     if math.isinf(a) or math.isinf(b):
         big = float(torch.finfo(getattr(torch, dtype)).max) / 4
         return not (min(a, b) > big or max(a, b) < -big or xmax > big)
-    return abs(a - b) > tol
+    return not (abs(a - b) <= tol)
 
 
 def all_finite(*tensors) -> bool:
@@ -442,6 +448,7 @@ class RecSolver:
             raise TrialLimit(f"{self.trial} solves in one call")
         act = self.plan(self.call, self.trial, self.nsolve)
         ev = {"nsolve": self.nsolve, "trial": self.trial, "params": [raw(p) for p in self.module.parameters()],
+              "Ab_finite": bool(torch.isfinite(A).all()) and bool(torch.isfinite(b).all()) if not (A.is_sparse or A.layout != torch.strided) else True,
               "opt_loss": getattr(self.opt, "loss", None), "opt_last": getattr(self.opt, "last", None),
               "rc": getattr(self.opt, "reject_count", None), "action": act[0]}
         if ev["opt_loss"] is not None:
@@ -467,6 +474,9 @@ class RecSolver:
         ev["raised"] = False
         ev["D"] = D.detach().clone()
         ev["D_ref"] = D
+        if act[0] == "scale" and A.layout == torch.strided and A.numel() <= 900 and self.trial <= 2:
+            # the linear system of this trial as the code built it (model `SolvesDamped`, op c08.normal)
+            ev["A"], ev["b"], ev["scale"] = A.detach().clone(), b.detach().clone(), float(act[1])
         return D
 
 
@@ -783,8 +793,10 @@ def restore_excess(kinds, before, after, dmag, eps, trial=None):
             if a.numel():
                 ratio = (a - b).abs() / tol
                 j = int(ratio.flatten().argmax())
-                if float(ratio.flatten()[j]) > worst:
-                    worst = float(ratio.flatten()[j])
+                if bool(torch.isnan(ratio).any()):
+                    j = int(torch.isnan(ratio).flatten().nonzero()[0])
+                if not (float(ratio.flatten()[j]) <= worst):
+                    worst = float("inf") if math.isnan(float(ratio.flatten()[j])) else float(ratio.flatten()[j])
                     info = (f"euclidean entry {j} differs by {float((a - b).abs().flatten()[j]):.3e} "
                             f"(allowed {float(tol.flatten()[j]):.3e})")
             continue
@@ -792,7 +804,9 @@ def restore_excess(kinds, before, after, dmag, eps, trial=None):
             if not x.numel():
                 continue
             dist = float((x - y).abs().max())
-            if dist / tol > worst:
+            if bool(torch.isnan(x - y).any()):
+                dist = float("inf")
+            if not (dist / tol <= worst):
                 worst, info = dist / tol, f"{name} part differs by {dist:.3e} (allowed {tol:.3e})"
     return worst, info
 
@@ -1003,6 +1017,92 @@ def script1d_plan(scn, module):
             return torch.tensor([[t - th]], dtype=A.dtype)
         return ("target", target)
     return plan
+
+
+def nonfinite_gate(scn, dtype, module, tl, given, given_true, pg0, sol, ups, final, ret, opt, is_lm, call):
+    """None when everything the call produced is finite (an overflowed `inf` loss whose true value is beyond the dtype
+    counts as finite: it is modelled as ±max-float). Otherwise ("fail", message) when the first non-finite value was
+    produced by the code under test from finite, in-range inputs, or ("abandon", tag) when it comes from the user model,
+    autograd, the linear solver or from overflow of the dtype (outside the modelled domain)."""
+    fmax = float(torch.finfo(getattr(torch, dtype)).max)
+    big = math.sqrt(fmax) / 16
+
+    def fin(x):
+        return math.isfinite(float(x))
+
+    def safe(v):
+        # own float64 evaluation: finite, and every intermediate of the dtype evaluation is far from the dtype's range
+        return math.isfinite(float(v)) and abs(float(v)) < fmax / 4 and getattr(v, "xmax", 0.0) < fmax / 4
+
+    def pts_verdict(what, mag):
+        if mag <= big:
+            return ("fail", f"non-finite result: {what} although the parameters and all steps so far are finite and at most "
+                            f"{mag:.3e} in magnitude (call {call})")
+        return ("abandon", "parameter-overflow")
+
+    if not safe(given_true):
+        return ("abandon", "given-loss-overflow")
+    if hasattr(opt, "last") and not fin(opt.last):
+        return ("fail", f"non-finite result: optimizer.last = {float(opt.last)!r} but the loss at the parameters the call was given is "
+                        f"{float(given_true)!r} (call {call})")
+    mag = param_mag(given)
+    if pg0 is not None and not all(fin(v) for v in pg0.values()):
+        return ("abandon", "pg-non-finite-before-call")       # set by the scenario itself or already reported
+    ui = 0
+    for t, ev in enumerate(sol):
+        if not all_finite(*ev["params"]):
+            return pts_verdict(f"the parameters before trial {t} (after restoring trial {t - 1}) contain NaN/inf", mag)
+        for nm in ("opt_loss", "opt_last"):
+            if ev.get(nm) is not None and not math.isfinite(ev[nm]):
+                return ("fail", f"non-finite result: optimizer.{nm[4:]} = {ev[nm]!r} at the top of trial {t}; the loss at the parameters the "
+                                f"call was given is {float(given_true)!r} (call {call})")
+        if not ev.get("Ab_finite", True):
+            return ("abandon", "normal-equations")            # user model / autograd (the damping is checked where it is produced)
+        if ev["raised"] or "D" not in ev:
+            continue
+        if not all_finite(ev["D"]):
+            return ("abandon", "solver-step")
+        mag = max(mag, float(ev["D"].abs().max()) if ev["D"].numel() else 0.0)
+        if ui >= len(ups):
+            continue
+        up = ups[ui]
+        ui += 1
+        if up["params"] is not None and not all_finite(*up["params"]):
+            return pts_verdict(f"the parameters after update_parameter(D) in trial {t} contain NaN/inf", mag)
+        if not all_finite(up["J"], up["R"]):
+            return ("abandon", "jacobian-residual")
+        l = float(up["loss"])
+        if not math.isfinite(l):
+            lt = with_params(module, up["params"], tl) if up["params"] is not None else None
+            if lt is not None and safe(lt):
+                return ("fail", f"non-finite result: model.loss gave {l!r} for trial {t}; the robust loss at the trial parameters is "
+                                f"{float(lt)!r} (call {call})")
+            if math.isnan(l):
+                return ("abandon", "trial-loss-nan")
+        JD = up["J"] @ up["D"]
+        st_in = (all(fin(v) for v in up["pg_before"].values()) and all(fin(v) for v in up["hyper"].values()) and fin(up["last"])
+                 and math.isfinite(l) and all_finite(JD, JD.mT @ (2 * up["R"] + JD)))
+        if not all(fin(v) for v in up["pg_after"].values()):
+            if st_in:
+                num, den, _ = quality_exact(up["last"], up["loss"], up["J"], up["D"], up["R"])
+                q = "0/0" if den == 0 and num == 0 else (f"{float(num)!r}/0" if den == 0 else repr(float(num / den)))
+                return ("fail", f"non-finite result: strategy.update turned {up['pg_before']} into {up['pg_after']} for finite arguments: "
+                                f"step quality {q}, high={up['hyper']['high']!r}, low={up['hyper']['low']!r} (trial {t}, call {call})")
+            return ("abandon", "strategy-input-overflow")
+    if not all_finite(*final):
+        return pts_verdict("the parameters left behind contain NaN/inf", mag)
+    if is_lm and not all(fin(v) for v in pg_state(opt.param_groups[0]).values()):
+        return ("abandon", "pg-non-finite")
+    for nm, v in (("step returned", ret), ("optimizer.loss =", getattr(opt, "loss", None))):
+        if v is None or not isinstance(v, torch.Tensor) or v.numel() != 1 or fin(v):
+            continue
+        t_f = tl()
+        if safe(t_f):
+            return ("fail", f"non-finite result: {nm} {float(v)!r}; the robust loss at the parameters left behind is {float(t_f)!r} "
+                            f"(call {call}, {len(sol)} trials)")
+        if math.isnan(float(v)) or not is_lm:
+            return ("abandon", "returned-loss-overflow")
+    return None
 
 
 class CallLog:
@@ -1325,7 +1425,15 @@ def _scenario_steps(ctx: Ctx, scn, collect, shared_inner=None, sink=None):
                     raise
         arm["phase"] = None
         if exc == "abandon":
+            # the real code raised on non-finite data (modjac's NaN assertion, a solver on NaN input ...): find where the
+            # first non-finite value came from, as for a call that returned
+            gate = nonfinite_gate(scn, dtype, module, tl, given, given_true, pg_before_call, solver.log[s0:], strat.log[u0:] if strat else [],
+                                  [raw(p) for p in module.parameters()], None, opt, is_lm, call)
+            if gate is not None and gate[0] == "fail":
+                fail(gate[1])
+                return
             ctx.count("abandoned.non-finite")
+            ctx.count("abandoned." + (gate[1] if gate else "exception-on-non-finite"))
             break
         if exc == "model":
             # a user callback (the model's forward) raised inside step(): the call must be atomic
@@ -1365,13 +1473,26 @@ def _scenario_steps(ctx: Ctx, scn, collect, shared_inner=None, sink=None):
         ups = strat.log[u0:] if strat else []
         final = [raw(p) for p in module.parameters()]
         ntr = len(sol)
-        # outside the property's domain: a non-finite step / Jacobian, NaN losses, non-finite parameters
+        # ---- non-finite values: found at their first occurrence. A NaN/inf produced by the code under test from finite
+        #      inputs is a failure with the scenario as replay; only a non-finite value coming from a trusted component
+        #      (user model / autograd / linear solver) or from genuine overflow of the dtype ends the scenario silently.
+        gate = nonfinite_gate(scn, dtype, module, tl, given, given_true, pg_before_call, sol, ups, final, ret if exc is None else None,
+                              opt, is_lm, call)
+        if gate is not None:
+            if gate[0] == "fail":
+                fail(gate[1])
+                return
+            ctx.count("abandoned.non-finite")
+            ctx.count("abandoned." + gate[1])
+            break
+        # (second line of defence; unreachable when the gate above is complete)
         if (not all_finite(*final) or not all_finite(*[e["D"] for e in sol if "D" in e])
                 or not all_finite(*[t for u in ups for t in (u["J"], u["R"])])
                 or any(math.isnan(float(u["loss"])) for u in ups) or (exc is None and (math.isnan(float(ret)) or (not is_lm and math.isinf(float(ret)))))
                 or math.isnan(given_true) or math.isinf(given_true)
                 or (is_lm and not math.isfinite(float(opt.last)))):
             ctx.count("abandoned.non-finite")
+            ctx.count("abandoned.second-defence")
             break
         tol_loss = lambda v: 64 * eps * (max(abs(v), getattr(v, "scale", 0.0)) + 1e-300) + 2 * drift + 2 * getattr(v, "lay", 0.0)
         if sink is not None:
@@ -1531,7 +1652,7 @@ def _scenario_steps(ctx: Ctx, scn, collect, shared_inner=None, sink=None):
         if far(optlast, given_true, tol_cache(given_true), dtype):
             fail(f"last: optimizer.last = {optlast!r} but the loss at the parameters the call was given is {given_true!r} "
                  f"(call {call})")
-        if had_cache and abs(optlast - cached) > tol_cache(given_true):
+        if had_cache and optlast != cached and not (abs(optlast - cached) <= tol_cache(given_true)):
             fail(f"last: optimizer.last = {optlast!r} differs from optimizer.loss = {cached!r} cached by the previous call "
                  f"(call {call})")
         # ---- never worse unless exhausted *in this call*
@@ -1579,6 +1700,12 @@ def _scenario_steps(ctx: Ctx, scn, collect, shared_inner=None, sink=None):
                 break
             up = ups[ui]
             ui += 1
+            if "A" in ev and not scn.get("weight") and up["J"].numel() <= 600 and call < 3 and all_finite(ev["A"], ev["b"]):
+                nr_ = normal_request(scn, ev, up, dtype, call, t)
+                if nr_ is not None:
+                    collect.setdefault("normal", []).append(nr_)
+                else:
+                    ctx.count("normal.skipped-overflow")
             # the trial point is Retr(parameters before the trial, D): for Euclidean parameters p + D entry by entry
             # (also when the parameter is a non-contiguous view: an update applied to a private copy moves nothing)
             if "D" in ev and up["params"] is not None:
@@ -1592,7 +1719,7 @@ def _scenario_steps(ctx: Ctx, scn, collect, shared_inner=None, sink=None):
                         want = b_.double().flatten() + dflat[off:off + nel]
                         err = (t_.double().flatten() - want).abs()
                         tolu = 4 * eps * (b_.double().flatten().abs() + dflat[off:off + nel].abs()) + 1e-300
-                        if bool((err > tolu).any()):
+                        if not bool((err <= tolu).all()):
                             j_ = int((err / tolu).argmax())
                             fail(f"update-applied: after update_parameter(D) entry {j_} of a Euclidean parameter is "
                                  f"{float(t_.double().flatten()[j_])!r}, expected p + D = {float(want[j_])!r} (trial {t}, call {call})")
@@ -1658,6 +1785,14 @@ def _scenario_steps(ctx: Ctx, scn, collect, shared_inner=None, sink=None):
                     fail(f"strategy-{kind}: large problem, quality {float(qx) if qx is not None else 'n/a'}: documented update of "
                          f"{up['pg_before']} does not give {up['pg_after']} (call {call} update {j})")
                 continue
+            if scn.get("tie_lm"):
+                num_, den_, _m = quality_exact(up["last"], up["loss"], up["J"], up["D"], up["R"])
+                if den_ != 0:
+                    for key_ in ("high", "low"):
+                        if num_ / den_ == Fraction(up["hyper"][key_]):
+                            ctx.count(f"class.tie-lm.exact.{kind}.{key_}")
+                else:
+                    ctx.count(f"class.tie-lm.zero-den.{kind}")
             collect["upd"].append(upd_request(scn, kind, up, dtype, where=f"call {call} update {j}"))
         if ntr and n_upd == sum(1 for ev in sol if not ev["raised"]) and (not ups or (all(torch.equal(u["J"], Jc) and torch.equal(u["R"], ups[0]["R"]) for u in ups)
                                 and Jc.numel() <= 4000)):
@@ -1701,7 +1836,26 @@ def _scenario_steps(ctx: Ctx, scn, collect, shared_inner=None, sink=None):
         collect["gn"].append({"line": line, "scn": scn, "obs": gn_obs})
 
 
+def update_nonfinite(kind, up, where=""):
+    """message when `strategy.update` produced a NaN/inf entry from finite arguments whose quality computation stays inside
+    the dtype (0/0 and x/0 qualities included: their branch is specified), else None"""
+    fin = lambda x: math.isfinite(float(x))
+    if all(fin(v) for v in up["pg_after"].values()) or up.get("raised"):
+        return None                     # (a documented exception, e.g. ZeroDivisionError, leaves pg as it was at that point)
+    JD = up["J"] @ up["D"]
+    if not (all(fin(v) for v in up["pg_before"].values()) and all(fin(v) for v in up["hyper"].values()) and fin(up["last"])
+            and fin(up["loss"]) and all_finite(up["J"], up["D"], up["R"], JD, JD.mT @ (2 * up["R"] + JD))):
+        return None
+    num, den, _ = quality_exact(up["last"], up["loss"], up["J"], up["D"], up["R"])
+    q = "0/0" if den == 0 and num == 0 else (f"{float(num)!r}/0" if den == 0 else repr(float(num / den)))
+    return (f"non-finite result: {kind} strategy.update turned {up['pg_before']} into {up['pg_after']} for finite arguments: "
+            f"step quality {q}, high={up['hyper']['high']!r}, low={up['hyper']['low']!r} ({where})")
+
+
 def upd_request(scn, kind, up, dtype, where=""):
+    if not all(math.isfinite(v) for v in up["pg_before"].values()):
+        # threaded after an update that already produced (and was reported for) a non-finite state: nothing to compare
+        return {"line": None, "scn": scn, "kind": kind, "up": up, "dtype": dtype, "where": where}
     Jd = up["J"].double()
     m, n = Jd.shape
     line = (f"c08.upd {KINDS[kind]} 9 {hyper_wire(up['hyper'])} {state_wire(up['pg_before'])} {wf(up['last'])} "
@@ -1723,6 +1877,14 @@ def state_match(obs, want, tol):
 
 def settle_updates(ctx: Ctx, reqs, stream):
     """first pass: model's own verdict; second pass for mismatches: verdicts the float code may legitimately take"""
+    live = []
+    for r in reqs:
+        msg = update_nonfinite(r["kind"], r["up"], r["where"]) if r["line"] is not None else None
+        if msg:
+            ctx.fail(r["scn"], msg)
+        elif r["line"] is not None:
+            live.append(r)
+    reqs = live
     if not reqs:
         return
     reps = ctx.driver.run([r["line"] for r in reqs])
@@ -1847,6 +2009,59 @@ def settle_lm(ctx: Ctx, items, ambiguous_scn_calls):
             last = rows[ntr - 1] if ntr else None
             if last is not None and (fin[:6] != last[:6]):
                 ctx.disagree("lm", it["scn"], f"call {call}: the model's lmStep (fuel reject+1) differs from the state after {ntr} passes")
+
+
+def normal_request(scn, ev, up, dtype, call, t):
+    """the linear system of one trial, as handed to the solver, against the two sides of the model's `SolvesDamped`:
+    A·D vs Jᵀ(J D) + Λ⊙D with Λ = diag(A) − diag(JᵀJ) (so the off-diagonal part of A must be that of JᵀJ), b vs −JᵀR"""
+    eps = EPS[dtype]
+    J, R = up["J"].double(), up["R"].double().flatten()
+    Dgiven = up["D"].double().flatten()          # what the loop used (the solver's step times the scripted scale)
+    A, b = ev["A"].double(), ev["b"].double().flatten()
+    m, n = J.shape
+    lam = A.diagonal() - (J.T @ J).diagonal()
+    Ja = J.abs()
+    AD = A @ Dgiven
+    tolv = 64 * eps * (Ja.T @ (Ja @ Dgiven.abs()) + A.diagonal().abs() * Dgiven.abs()) + 1e-300
+    tolb = 64 * eps * (Ja.T @ R.abs()) + 1e-300
+    if not all_finite(J, R, Dgiven, lam, AD, tolv, tolb):
+        return None                # the harness' own float64 products overflow (scales near 1e±300): nothing to compare
+    line = (f"c08.normal {m} {n} {wire_list(J.flatten().tolist())} {wire_list(lam.tolist())} {wire_list(Dgiven.tolist())} "
+            f"{wire_list(R.tolist())}")
+    return {"line": line, "scn": scn, "call": call, "t": t, "n": n, "AD": AD.tolist(), "b": b.tolist(),
+            "tolv": tolv.tolist(), "tolb": tolb.tolist(),
+            "genuine": ev["scale"] == 1.0, "lam_pos": bool((lam > 0).all()), "nonzero": bool((Dgiven != 0).any())}
+
+
+def settle_normal(ctx: Ctx, items):
+    if not items:
+        return
+    reps = ctx.driver.run([it["line"] for it in items])
+    for it, rep in zip(items, reps):
+        nums = common.reply_nums(rep)
+        n = it["n"]
+        lhs, rhs, den = nums[:n], nums[n:2 * n], nums[2 * n]
+        ctx.count("normal.compared")
+        for j in range(n):
+            if not (abs(lhs[j] - Fraction(it["AD"][j])) <= Fraction(it["tolv"][j])):
+                ctx.disagree("normal", it["scn"], f"call {it['call']} trial {it['t']}: (A D)[{j}] = {it['AD'][j]!r} for the matrix handed to the "
+                                                 f"solver, model Jᵀ(J D) + Λ⊙D = {float(lhs[j])!r}")
+                ctx.fail(it["scn"], f"normal-equations: the matrix handed to the solver is not JᵀJ + diag Λ: (A D)[{j}] = {it['AD'][j]!r}, "
+                                    f"Jᵀ(J D) + Λ⊙D = {float(lhs[j])!r} (call {it['call']} trial {it['t']})")
+                break
+            if not (abs(rhs[j] - Fraction(it["b"][j])) <= Fraction(it["tolb"][j])):
+                ctx.disagree("normal", it["scn"], f"call {it['call']} trial {it['t']}: b[{j}] = {it['b'][j]!r}, model −JᵀR = {float(rhs[j])!r}")
+                ctx.fail(it["scn"], f"normal-equations: the right-hand side handed to the solver is not −JᵀR: b[{j}] = {it['b'][j]!r}, "
+                                    f"−(JᵀR)[{j}] = {float(rhs[j])!r} (call {it['call']} trial {it['t']})")
+                break
+        else:
+            if it["genuine"] and it["lam_pos"] and it["nonzero"]:
+                # hypotheses of `qualityDen_pos_of_normal_equations` up to the accuracy of the solver: its conclusion, observed
+                solved = all(abs(lhs[j] - rhs[j]) <= Fraction(1, 1000) * (abs(lhs[j]) + abs(rhs[j])) + Fraction(it["tolv"][j])
+                             for j in range(n))
+                ctx.count(f"normal.genuine.{'solved' if solved else 'inexact'}.den-{'positive' if den > 0 else 'nonpositive'}")
+                if solved:
+                    ctx.note_case(("normal", it["scn"]["family"], it["scn"]["strategy"]["kind"], it["scn"]["dtype"], n, den > 0), True)
 
 
 def settle_lmloss(ctx: Ctx, items):
@@ -2032,12 +2247,14 @@ def run_upd_stream(ctx: Ctx, n, rng=None):
 
 def check_bounds_direct(ctx, case, kind, up):
     h, cur = up["hyper"], up["pg_after"]
+    if not all(math.isfinite(v) for v in cur.values()):
+        return                          # reported (or excused) by `update_nonfinite`
     if h["smin"] <= h["smax"] and kind != "constant":
         for kx in (["damping"] if kind == "adaptive" else ["radius", "down"]):
             if not (h["smin"] <= cur[kx] <= h["smax"]):
                 ctx.fail(case, f"bounds: {kind} {kx} = {cur[kx]!r} outside [{h['smin']!r}, {h['smax']!r}] after an update")
     if kind == "trust" and cur["radius"] > 0:
-        if abs(cur["damping"] * cur["radius"] - 1.0) > 8 * EPS["float64"]:
+        if not (abs(cur["damping"] * cur["radius"] - 1.0) <= 8 * EPS["float64"]):
             ctx.fail(case, f"trust-inverse: damping {cur['damping']!r} is not 1/radius {cur['radius']!r} after an update")
     if kind == "constant" and cur != up["pg_before"]:
         ctx.fail(case, f"strategy-constant: Constant.update changed pg from {up['pg_before']} to {cur}")
@@ -2066,7 +2283,11 @@ def run_hist_case(ctx: Ctx, case):
             qv = spec["high"] + 1.0
         qs.append(qv)
         rec.update(pg, last=torch.tensor(qv + 2.0, dtype=dt), loss=torch.tensor(2.0, dtype=dt), J=J, D=D, R=R)
-    for up in rec.log:
+    for i, up in enumerate(rec.log):
+        msg = update_nonfinite(spec["kind"], up, f"update {i} of a threaded history")
+        if msg:
+            ctx.fail(case, msg)
+            return None
         check_bounds_direct(ctx, case, spec["kind"], up)
     line = (f"c08.stratrun {KINDS[spec['kind']]} {hyper_wire(h0)} {state_wire(s0)} " +
             " ".join(f"{to_wire((qv + 2.0) - 2.0)} 1:0" for qv in qs))
@@ -2192,6 +2413,9 @@ def run_hist_stream(ctx: Ctx, n, rng=None):
 
 
 def settle_hist(ctx: Ctx, items):
+    items = [it for it in items if it is not None]
+    if not items:
+        return
     reps = ctx.driver.run([it["line"] for it in items])
     for it, rep in zip(items, reps):
         nums = common.reply_nums(rep)
@@ -2204,7 +2428,7 @@ def settle_hist(ctx: Ctx, items):
                 qv = float(up["last"]) - float(up["loss"])
                 v = classify(qv, up["hyper"]["high"], up["hyper"]["low"])
                 doc = doc_update(it["spec"]["kind"], up["hyper"], up["pg_before"], v)
-                if any(abs(doc[kx] - up["pg_after"][kx]) > 16 * EPS["float64"] * abs(doc[kx]) for kx in up["pg_after"]):
+                if not all(abs(doc[kx] - up["pg_after"][kx]) <= 16 * EPS["float64"] * abs(doc[kx]) for kx in up["pg_after"]):
                     ctx.fail(it["case"], f"strategy-{it['spec']['kind']}: update {i} of a history: quality {qv} is '{v}', documented update of "
                                          f"{up['pg_before']} is { {kx: doc[kx] for kx in up['pg_after']} } but the implementation produced {up['pg_after']}")
                 break
@@ -2249,13 +2473,17 @@ def run_loss_stream(ctx: Ctx, n, rng=None):
             # gradual underflow of ‖r‖² in the narrow dtype: absolute spacing below the smallest normal number
             tiny = float(torch.finfo(getattr(torch, it["case"]["dtype"])).tiny)
             tol += 64 * EPS[it["case"]["dtype"]] * tiny * sum(int(math.prod(shp[:-1])) for shp in it["case"]["shapes"])
+        if math.isnan(got):
+            # finite residuals: overflow of the narrow dtype gives inf (handled below), never NaN
+            ctx.fail(it["case"], f"non-finite result: RobustModel.loss returned nan for finite outputs; Σ ρ_i(‖r‖²) is {it['oracle']!r}")
+            continue
         if not math.isfinite(got):
             if not far(got, float(want), tol, it["case"]["dtype"]):
                 continue
             got = math.copysign(FMAX, got) if math.isinf(got) else 0.0
-        if abs(Fraction(got) - want) > Fraction(tol):
+        if not (abs(Fraction(got) - want) <= Fraction(tol)):
             ctx.disagree("loss", it["case"], f"RobustModel.loss = {got!r}, model robustLoss = {float(want)!r}")
-            if abs(got - it["oracle"]) > tol:
+            if not (abs(got - it["oracle"]) <= tol):
                 ctx.fail(it["case"], f"robust-loss: RobustModel.loss returned {got!r} but Σ ρ_i(‖r‖²) over the last dimension is {it['oracle']!r}")
 
 
@@ -2345,18 +2573,18 @@ def run_large_loss(ctx: Ctx, sizes, rng):
         tol = 8 * eps * max(abs(want), scale) * max(1.0, math.log2(N))
         vals = [loss_of(x.reshape(shp)) for shp in shapes]
         for shp, v in zip(shapes, vals):
-            if abs(v - want) > tol:
+            if not (abs(v - want) <= tol):
                 ctx.fail(case, f"robust-loss: {N} items as shape {shp}: RobustModel.loss = {v!r}, Σρ(‖r‖²) = {want!r}")
         cuts = {1, N // 2, N - 1} | {N - (N % (2 ** k_)) for k_ in (10, 12, 16, 18) if 0 < N % (2 ** k_) < N}
         for a in sorted(cuts):
             if 0 < a < N:
                 parts = loss_of(x[:a]) + loss_of(x[a:])
-                if abs(parts - vals[0]) > tol:
+                if not (abs(parts - vals[0]) <= tol):
                     ctx.fail(case, f"split-consistency: loss of {N} items = {vals[0]!r} but loss(x[:{a}]) + loss(x[{a}:]) = {parts!r}")
         for i in (0, N - 1, rng.randrange(N)):
             one = loss_of(x[i:i + 1])
             w1, s1, _ = loss_and_scale([x[i:i + 1]], kspec)
-            if abs(one - w1) > 64 * eps * max(abs(w1), s1):
+            if not (abs(one - w1) <= 64 * eps * max(abs(w1), s1)):
                 ctx.fail(case, f"robust-loss: item {i} of {N} alone: {one!r}, expected {w1!r}")
         # the Lean model on the last 257 items (incl. the last one) + the loss of the rest from the implementation itself
         tail = x[-min(N, 257):]
@@ -2366,14 +2594,14 @@ def run_large_loss(ctx: Ctx, sizes, rng):
         # … and the very last item on its own: loss(x) − loss(x[:-1]) is its kernel value
         last_v = vals[0] - loss_of(x[:-1])
         wl_, sl_, _ = loss_and_scale([x[-1:]], kspec)
-        if abs(last_v - wl_) > 2 * tol + 64 * eps * sl_:
+        if not (abs(last_v - wl_) <= 2 * tol + 64 * eps * sl_):
             ctx.fail(case, f"robust-loss: the last of {N} items contributes {last_v!r} to the loss, its kernel value is {wl_!r}")
         ctx.count(f"class.large-loss.N={N}")
         ctx.note_case(("large-loss", N, d, dtype, str(kspec)), True)
     reps = ctx.driver.run([it["line"] for it in items])
     for it, rep in zip(items, reps):
         want = common.reply_nums(rep)[0]
-        if abs(Fraction(it["got"]) - want) > Fraction(it["tol"]):
+        if not math.isfinite(it["got"]) or abs(Fraction(it["got"]) - want) > Fraction(it["tol"]):
             ctx.disagree("large-loss", it["case"], f"loss of the last items: implementation {it['got']!r}, model {float(want)!r}")
             ctx.fail(it["case"], f"robust-loss: the last items of a batch of {it['case']['N']} contribute {it['got']!r}, expected {float(want)!r}")
 
@@ -2706,6 +2934,58 @@ def script_scenarios(rng, rejects, kinds, ncalls_extra=True, ks=None):
     return out
 
 
+def tie_lm_scenarios():
+    out = []
+    for kind in ("adaptive", "trust"):
+        for dtype in ("float64", "float32"):
+            for (high, low) in ((1.0, 0.25), (4.0, 1.0), (1.0, 1.0)):
+                spec = {"kind": kind, "damping": 0.25, "high": high, "low": low, "up": 2.0, "down": 0.5, "factor": 0.5,
+                        "min": 2.0 ** -10, "max": 2.0 ** 10}
+                if kind == "trust":
+                    spec["radius"] = 4.0
+                for start, scripts in ((3.0, ["B", "WB", "WWB"]), (0.75, ["E", "WWW", "WE"])):
+                    out.append({"kind": "opt", "opt": "lm", "family": "script1d", "fam_seed": 0, "dtype": dtype, "reject": 2, "ncalls": 3,
+                                "scripts": scripts, "start": start, "lm_min": 1e-6, "lm_max": 1e32, "solver": "solve", "kernel": None,
+                                "strategy": dict(spec), "n": 1, "M": 1, "d": 1, "tie_lm": True})
+    return out
+
+
+def run_tie_reruns(ctx: Ctx, probes):
+    """any family: run a history once, read the step quality of its first trials AS THE CODE COMPUTES IT (a float of the model's
+    dtype), make that very float the `high` (then the `low`) threshold and run the history again: the comparison inside
+    strategy.update is then an exact floating tie reached through LM.step on ordinary data. Where the exact rational quality
+    differs from the float the verdict band admits both neighbours, but a non-finite state, an exception or a branch that
+    matches neither neighbour is reported."""
+    import copy
+    total = {"upd": [], "lm": [], "gn": [], "loss": []}
+    for scn in probes:
+        c0 = {"upd": [], "lm": [], "gn": [], "loss": []}
+        run_optimizer_scenario(ctx, {k: v for k, v in scn.items() if k != "tie_probe"}, c0)
+        qs = []
+        for r in c0["upd"][:3]:
+            up = r["up"]
+            qf = quality_float(up["last"], up["loss"], up["J"], up["D"], up["R"])
+            if math.isfinite(qf) and 0.0 < qf < 1e6 and qf not in qs:
+                qs.append(qf)
+        for qf in qs[:2]:
+            for key in ("high", "low"):
+                s2 = copy.deepcopy({k: v for k, v in scn.items() if k != "tie_probe"})
+                st = s2["strategy"]
+                st[key] = qf
+                if key == "high" and st["low"] > qf:
+                    st["low"] = qf / 4
+                if key == "low" and st["high"] < qf:
+                    st["high"] = qf * 4
+                s2["tie_rerun"] = key
+                n0 = len(total["upd"])
+                run_optimizer_scenario(ctx, s2, total)
+                hit = any(quality_float(r["up"]["last"], r["up"]["loss"], r["up"]["J"], r["up"]["D"], r["up"]["R"]) == qf
+                          for r in total["upd"][n0:])
+                ctx.count(f"class.tie-lm.rerun.{key}.{'hit' if hit else 'miss'}")
+                ctx.note_case(("tie-rerun", scn["family"], st["kind"], key, scn["dtype"], hit), hit)
+    settle_collect(ctx, total)
+
+
 def run_opt_stream(ctx: Ctx, scns):
     collect = {"upd": [], "lm": [], "gn": [], "loss": []}
     for i, scn in enumerate(scns):
@@ -2717,6 +2997,10 @@ def run_opt_stream(ctx: Ctx, scns):
             run_optimizer_scenario(ctx, scn, collect)
         if i < 2:
             ctx.sample({"stream": scn["opt"], **{k: v for k, v in scn.items() if k not in ("bad",)}}, cap=8)
+    settle_collect(ctx, collect)
+
+
+def settle_collect(ctx: Ctx, collect):
     settle_updates(ctx, collect["upd"], "lm-upd")
     # calls whose per-trial update was threshold-ambiguous: strategy state not compared in the threaded model run
     amb = set()
@@ -2730,6 +3014,7 @@ def run_opt_stream(ctx: Ctx, scns):
     settle_lm(ctx, collect["lm"], amb)
     settle_gn(ctx, collect["gn"])
     settle_lmloss(ctx, collect["loss"])
+    settle_normal(ctx, collect.get("normal", []))
 
 
 TWIN_KEYS = ("call_style", "ctor_style", "input_container", "scalar_input", "grad_mode", "input_requires_grad", "kernel_wrap",
@@ -2951,6 +3236,17 @@ def corpus_scenarios(quick=True):
             out.append({"kind": "opt", "opt": "lm", "family": "script1d", "fam_seed": 0, "dtype": "float64", "reject": 2, "ncalls": 2,
                         "scripts": [ch, "W" + ch], "start": 3.0, "lm_min": 1e-6, "lm_max": 1e32, "solver": "solve",
                         "kernel": None, "strategy": dict(dflt[kind]), "n": 1, "M": 1, "d": 1})
+    # ---- pass 7: step quality EXACTLY on a threshold through LM.step itself. The scripted 1-D model is linear, so with dyadic
+    # data the quality (last - loss) / (predicted decrease) is exactly 1 for every trial (worse trials included); thresholds
+    # high = 1 / low = 1 / high = low = 1 put it on each comparison of the if / elif chain. The rules: == high is "successful"
+    # (state unchanged), == low is "unsuccessful". Equal losses (ending E: 0/-0. = NaN quality) are in the same histories.
+    out += tie_lm_scenarios()
+    for fam, kw in (("lin", dict(bad=[1, 0, 2, 0], good_scale=0.3)), ("atan", dict(start=0.2, n=2)), ("rosen", dict(start=0.5, fam_seed=7)),
+                    ("so3", dict(M=2, start=0.5, bad=[0, 1, 0, 0], good_scale=0.5))):
+        for kind, dt_ in (("adaptive", "float64"), ("trust", "float32")):
+            b_ = base(fam, kind, dtype=dt_, ncalls=3, **kw)
+            b_["tie_probe"] = True
+            out.append(b_)
     # ---- pass 4
     for kind in ("constant", "adaptive", "trust"):
         # user subclasses of library classes: strategy (library rule through the subclass / its own law), solver, kernel, model
@@ -3211,7 +3507,9 @@ def run_corpus(ctx: Ctx):
     run_hist_stream(ctx, 24, rc)
     run_edithist_stream(ctx, 20, rc)
     run_loss_stream(ctx, 40, rc)
-    run_opt_stream(ctx, corpus_scenarios(ctx.quick))
+    corpus = corpus_scenarios(ctx.quick)
+    run_opt_stream(ctx, [s_ for s_ in corpus if not s_.get("tie_probe")])
+    run_tie_reruns(ctx, [s_ for s_ in corpus if s_.get("tie_probe")])
     alias_probes(ctx)
 
 
@@ -3221,6 +3519,23 @@ def reset_shared():
 
 
 def run(ctx: Ctx):
+    import os, time, sys
+    if os.environ.get("C08_PROF"):
+        g = globals()
+        for nm in [k for k in g if k.startswith("run_") or k.startswith("settle_") or k in ("repeat_check", "alias_probes")]:
+            fn = g[nm]
+            if getattr(fn, "_prof", False):
+                continue
+            def mk(fn, nm):
+                def w(*a, **k):
+                    t0 = time.time()
+                    try:
+                        return fn(*a, **k)
+                    finally:
+                        print(f"PROF {nm} {time.time() - t0:.2f}", file=sys.stderr)
+                w._prof = True
+                return w
+            g[nm] = mk(fn, nm)
     rng = ctx.rng
     torch.set_num_threads(1)      # tiny tensors: threads only add contention on a shared box
     reset_shared()
@@ -3232,16 +3547,16 @@ def run(ctx: Ctx):
     run_loss_stream(ctx, ctx.pick(80, 800))
     # scripted 1-D: exhaustive endings for every reject (quick: a rotating subset of rejects + all small ones)
     if ctx.quick:
-        rejects = [2] + sorted(rng.sample(range(4, 16), 2))
+        rejects = [2] + sorted(rng.sample(range(4, 16), 1))
         kinds = [rng.choice(["constant", "adaptive", "trust"])]
         scr = script_scenarios(rng, rejects, kinds)
     else:
         scr = script_scenarios(rng, list(range(0, 17)), ["constant", "adaptive", "trust"])
     run_opt_stream(ctx, scr)
-    scns = [gen_scenario(rng, ctx.quick, "lm") for _ in range(ctx.pick(70, 900))]
-    scns += [gen_scenario(rng, ctx.quick, "gn") for _ in range(ctx.pick(25, 200))]
+    scns = [gen_scenario(rng, ctx.quick, "lm") for _ in range(ctx.pick(48, 900))]
+    scns += [gen_scenario(rng, ctx.quick, "gn") for _ in range(ctx.pick(20, 200))]
     scns += pair_scenarios(rng, ctx.pick(8, 80), ctx.quick)
-    scns += twin_scenarios(rng, ctx.pick(16, 250), ctx.quick)
+    scns += twin_scenarios(rng, ctx.pick(12, 250), ctx.quick)
     scns += default_groups(rng, ctx.pick(4, 40), ctx.quick)
     run_opt_stream(ctx, scns)
     repeat_check(ctx)
@@ -3304,6 +3619,7 @@ def replay(ctx: Ctx, case) -> bool:
         settle_lm(ctx, collect["lm"], set())
         settle_gn(ctx, collect["gn"])
         settle_lmloss(ctx, collect["loss"])
+        settle_normal(ctx, collect.get("normal", []))
     elif kind == "upd":
         spec = c["spec"]
         dt = getattr(torch, c["dtype"])
@@ -3331,7 +3647,7 @@ def replay(ctx: Ctx, case) -> bool:
     elif kind == "loss":
         it = loss_case(ctx, c)
         print("  RobustModel.loss:", it["got"], " Σρ(‖r‖²):", it["oracle"])
-        if abs(it["got"] - it["oracle"]) > 64 * EPS[c["dtype"]] * max(abs(it["oracle"]), it["scale"]):
+        if not (abs(it["got"] - it["oracle"]) <= 64 * EPS[c["dtype"]] * max(abs(it["oracle"]), it["scale"])):
             ctx.fail(c, "robust-loss: mismatch")
     for f in ctx.failures[n0:]:
         print("  fails:", f["what"])
